@@ -101,7 +101,8 @@ Definition s_lhdr (n : Z) (long : bool) (t : Z) : list byte :=
 
 Fixpoint sencC (s : sval) : list byte :=
   match s with
-  | SBool b _ => [if b then x01 else x02]          (* as a collection element / map key / value *)
+  | SBool b tb => [if b then x01 else if Byte.eqb tb x00 then x00 else x02]
+      (* as a collection element / map key / value; false is 2 (the Apache libraries) or, annotation byte 00, 0 (the protocol text) *)
   | SI8 z => [z2b z]
   | SI16 z | SI32 z | SI64 z => s_zz z
   | SDouble b => le_bytes 8 b
